@@ -26,9 +26,9 @@ def run(res, replay=None, inflate=False):
         cfgs = [(c[0], c[1], c[2], c[3] + ("MSGDRV_CURSOR",)) for c in cfgs]
     res.extra["configurations"] = ["%s -std=%s" % (c[0], c[1]) for c in cfgs]
     cases = prepare_many(res.seed, nschemas, cfgs)
-    if inflate:
-        # levels without non-constant fields / member-less levels with a longer wire block (fixed edge schemas)
-        cases.append(prepare_fixed(edge_schema(), cfgs))
+    # fixed edge schemas: levels without non-constant fields / member-less levels (with a longer wire block for C03),
+    # narrow-count dimensions, nested composites with their own offset
+    cases.append(prepare_fixed(edge_schema(), cfgs))
     dist = {}
     for ci, mc in enumerate(cases):
         for k, v in mc.stats.items():
